@@ -1,6 +1,10 @@
 package main
 
 import (
+	"fmt"
+	"go/token"
+	"regexp"
+	"sort"
 	"strings"
 
 	"golang.org/x/tools/go/ssa"
@@ -192,6 +196,105 @@ func runC37(c *Ctx) []Obligation {
 			Target: RetNotMatch(0, `^codec\.MapToSlice\(codec\.SliceToMap\(arr\)\)$`), Why: "and deduplicated by going through a map keyed by feature name"},
 	})...)
 	out = append(out, c.upgradeGlobalsAgree(P), c.activationPredicate(P))
+	// the list <-> map conversions the merge and the restart both go through: "NAME:height" is written and
+	// parsed with the same separator and in the same order, later entries override earlier ones, and
+	// nothing of an existing schedule is dropped
+	idx := `arr\[\(phi:rangeindex \+ 1\)\]`
+	key := `strings\.Split\(` + idx + `, ":"\)\[0\]`
+	val := `strconv\.ParseInt\(strings\.Split\(` + idx + `, ":"\)\[1\], 10, 64\)#0`
+	for _, f := range []string{"codec.SliceToMap", "codec.SliceToExistingMap"} {
+		short := f[len("codec."):]
+		exc := `^makemap\[` + key + `\]$`
+		if f == "codec.SliceToExistingMap" {
+			exc = `^makemap\[(` + key + `|next\(range\(m\)\)#1)\]$`
+		}
+		out = append(out, c.Rows([]Row{
+			{Prop: P, ID: "parse." + short + ".key-is-name", Fn: f, Target: StoreTo(`^makemap\[`).Except(exc), Why: "an entry is filed under the text before the colon"},
+			{Prop: P, ID: "parse." + short + ".value-is-height", Fn: f, Target: StoreTo(`^makemap\[strings\.Split`).ExceptVal(`^` + val + `$`), Why: "with the decimal height after the colon as its value"},
+			{Prop: P, ID: "parse." + short + ".returns-the-map", Fn: f, Target: RetNotMatch(0, `^makemap$`), Why: "the map built is the map returned"},
+		})...)
+		out = append(out, c.edgeMust(P, "parse."+short+".every-entry", f, `^lt\(\(phi:rangeindex \+ 1\), builtin\.len\(arr\)\)$`, true, `mapset:^makemap\[`+key+`\] = `, 1, "every element of the list is entered (a later duplicate of a name overrides the earlier one)"))
+	}
+	out = append(out,
+		c.edgeMust(P, "parse.SliceToExistingMap.keeps-existing", "codec.SliceToExistingMap", `^next\(range\(m\)\)#0$`, true, `mapset:^makemap\[next\(range\(m\)\)#1\] = next\(range\(m\)\)#2$`, 1, "every entry of the existing schedule is carried over before the list is applied"),
+		c.edgeMust(P, "format.MapToSlice.every-entry", "codec.MapToSlice", `^next\(range\(m\)\)#0$`, true, `^builtin\.append\(phi:fslice, \[fmt\.Sprintf\("%s:%d", \[next\(range\(m\)\)#1, next\(range\(m\)\)#2\]\)\]\)`, 1, "every entry of the map is written as NAME:height — the form the parsers read"),
+	)
+	out = append(out, c.Rows([]Row{
+		{Prop: P, ID: "format.MapToSlice.only-that-form", Fn: "codec.MapToSlice", Target: CallTo(`^fmt\.Sprintf\(`).Except(`^fmt\.Sprintf\("%s:%d", \[next\(range\(m\)\)#1, next\(range\(m\)\)#2\]\)$`), Why: "name first, height second, colon between"},
+	})...)
+	out = append(out, c.featurePredicatesAgree(P)...)
+	return out
+}
+
+// featurePredicatesAgree: the hard-wired activation predicates of the codec (IsAfter…Upgrade / IsOn…) are
+// siblings of one shape: the feature's map entry is tested for zero and compared with the height, and both
+// uses name the same feature.
+func (c *Ctx) featurePredicatesAgree(P string) []Obligation {
+	var out []Obligation
+	var fns []*ssa.Function
+	for fn := range c.A.AllFns {
+		if fn.Blocks == nil || fn.Signature.Recv() == nil || fnPkgPath(fn) != repoMod+"/codec" || !isBoolResult(fn) {
+			continue
+		}
+		n := fn.Name()
+		if !(strings.HasPrefix(n, "IsAfter") || strings.HasPrefix(n, "IsOn")) {
+			continue
+		}
+		fns = append(fns, fn)
+	}
+	sort.Slice(fns, func(i, j int) bool { return FnName(fns[i]) < FnName(fns[j]) })
+	keyRe := regexp.MustCompile(`codec\.UpgradeFeatureMap\[([^\]]+)\]`)
+	for _, fn := range fns {
+		o := c.obl(P, "activation.sibling-shape", FnName(fn), "in "+FnName(fn)+" the zero test and the height comparison read the same feature's entry, and the comparison has the height on the side the name says (IsAfter: height >= entry, IsOn: height == entry)")
+		o.Pos = c.A.FnPos(fn)
+		keys := map[string]int{}
+		var cmps []string
+		for _, b := range fn.Blocks {
+			for _, ins := range b.Instrs {
+				o.Facts++
+				bo, ok := ins.(*ssa.BinOp)
+				if !ok {
+					continue
+				}
+				d := desc(bo, maxDepth)
+				for _, m := range keyRe.FindAllStringSubmatch(d, -1) {
+					keys[m[1]]++
+				}
+				switch bo.Op {
+				case token.GEQ, token.LEQ, token.LSS, token.GTR:
+					if keyRe.MatchString(d) {
+						cmps = append(cmps, condAtom(bo).Str+"|"+fmt.Sprint(condAtom(bo).Neg))
+					}
+				}
+			}
+		}
+		if len(keys) == 0 {
+			// predicates on the codec-upgrade height itself, not on a named feature
+			o.Detail = "no feature-map entry read"
+			out = append(out, *o)
+			continue
+		}
+		if len(keys) != 1 {
+			var ks []string
+			for k := range keys {
+				ks = append(ks, k)
+			}
+			sort.Strings(ks)
+			o.fail(o.Pos, "the predicate reads the entries of different features: %s", strings.Join(ks, ", "))
+		}
+		if strings.HasPrefix(fn.Name(), "IsAfter") {
+			for _, cm := range cmps {
+				// height >= entry  ==  not lt(height, entry)
+				if !regexp.MustCompile(`^lt\(height, codec\.UpgradeFeatureMap\[[^\]]+\]\)\|true$`).MatchString(cm) {
+					o.fail(o.Pos, "the height comparison is %s, not height >= entry", cm)
+				}
+			}
+			if len(cmps) == 0 {
+				o.fail(o.Pos, "no comparison of the height with the feature's entry")
+			}
+		}
+		out = append(out, *o)
+	}
 	return out
 }
 
